@@ -36,7 +36,7 @@ CHECKS = [
     },
     {
         "id": "C04",
-        "text": "Bounded-exhaustive exploration of triples D1.X.'\\n'.D2 on the real parser: 4 well-formed prefixes x 5 well-formed suffixes x every "
+        "text": "Bounded-exhaustive exploration of triples D1.X.'\\n'.D2 on the real parser: 5 well-formed prefixes x 6 well-formed suffixes x every "
         "token sequence X over the splitter alphabet up to length 4 (quick) / 5 (thorough) plus every prefix and single-token edit of 6 valid blocks; "
         "splitter-only and default stack. Oracle (differential): the first blocks equal those of D1 parsed alone in full, the last blocks equal those of D2 "
         "parsed alone in class, content, raw, metadata and start lines shifted by the lines before D2.",
@@ -60,19 +60,19 @@ CHECKS = [
     },
     {
         "id": 'C06',
-        "text": 'Bounded-exhaustive exploration of the writer: every library of <=2 (quick) / <=3 (thorough) blocks over a 14-block universe (entries with 0/1/3 fields and keys shorter/equal/longer than the column, strings, preamble, comments, four kinds of failed blocks incl. CRLF and newline-terminated raw) x the product indent x value_column (9 values quick, 0..40+auto thorough) x trailing_comma x block_separator x parsing_failed_comment, through the empty and the default write stack, compared block by block with a reference renderer written from the property text (separator placement, field line layout, column rule, auto column, comma rule, verbatim failed blocks under the configured comment, format object unchanged).',
+        "text": 'Bounded-exhaustive exploration of the writer: every library of <=2 (quick) / <=3 (thorough) blocks over a 15-block universe (entries with 0/1/3 fields and keys shorter/equal/longer than the column, strings, preamble, comments, four kinds of failed blocks incl. CRLF and newline-terminated raw) x the product indent x value_column (9 values quick, 0..40+auto thorough) x trailing_comma x block_separator x parsing_failed_comment, through the empty and the default write stack, compared block by block with a reference renderer written from the property text (separator placement, field line layout, column rule, auto column, comma rule, verbatim failed blocks under the configured comment, format object unchanged).',
         "note": 'Exact layout is constrained only where the property states it (entries, failed blocks, separators); strings/preambles/comments must end in a newline and re-parse to the same content. {n} may be any usual line count.',
         "technique": 'bounded-exhaustive model checking of the implementation against a reference renderer (libraries x formats product)',
     },
     {
         "id": 'C07',
-        "text": 'Bounded-exhaustive exploration of copy-mode middleware stacks on the real code: 14 libraries (parses of 10 catalogue documents with every block kind incl. failed/duplicate/middleware-error blocks, plus list-, NameParts- and int-valued variants) x every stack of length <=2 (quick) / <=3 (thorough) over a pool of 44 middleware instances (every shipped class with allow_inplace_modification=False in every option set, and the block sorter), instances reused within a stack. After each stage: canonical snapshot of the input unchanged, alias walker finds no mutable object reachable from both input and output; same for the original library vs the final result. Plus write_string twice under 6 formats.',
+        "text": 'Bounded-exhaustive exploration of copy-mode middleware stacks on the real code: 17 libraries (parses of catalogue documents with every block kind incl. failed/duplicate/middleware-error blocks, plus list-, NameParts- and int-valued variants) x every stack of length <=2 (quick) / <=3 (thorough) over a pool of 44 middleware instances (every shipped class with allow_inplace_modification=False in every option set, and the block sorter), instances reused within a stack. After each stage: canonical snapshot of the input unchanged, alias walker finds no mutable object reachable from both input and output; same for the original library vs the final result. Plus write_string twice under 6 formats.',
         "note": 'Exception objects and immutable atoms are not aliasing; a stage that raises ends the trace without verdict (counted).',
         "technique": 'bounded-exhaustive model checking of the implementation (stack products) with structural-snapshot and object-graph alias invariants',
     },
     {
         "id": 'C09',
-        "text": 'Bounded-exhaustive exploration: every document of <=4 (quick) / <=5 (thorough) blocks over a 12-block catalogue with colliding entry/string/field keys, two separators, default and empty parse stack (21.6k / 222k documents); compared with a constructive reference walk: one block per source block, first holder live, later holders wrapped in place exposing key / first block (identity under the in-place stack) / complete duplicate with raw, repeated field keys -> duplicate-field block with every occurrence and not registered as live, entries_dict/strings_dict equal the live maps.',
+        "text": 'Bounded-exhaustive exploration: every document of <=4 (quick) / <=5 (thorough) blocks over a 15-block catalogue with colliding entry/string/field keys (incl. keys padded with non-ASCII blanks), two separators, default and empty parse stack; compared with a constructive reference walk: one block per source block, first holder live, later holders wrapped in place exposing key / first block (identity under the in-place stack) / complete duplicate with raw, repeated field keys -> duplicate-field block with every occurrence and not registered as live, entries_dict/strings_dict equal the live maps.',
         "note": 'Catalogue and length bound as stated.',
         "technique": 'bounded-exhaustive model checking of the implementation against a constructive reference model',
     },
@@ -84,31 +84,31 @@ CHECKS = [
     },
     {
         "id": 'C11',
-        "text": "Bounded-exhaustive exploration: every document of <=4 (quick) / <=5 (thorough) blocks over an 8-block catalogue (duplicate and case-variant @string definitions, a string whose value is an identifier, an entry with every value form, an entry naming one string twice, definitions before/after/absent), default stack, compared with a reference computed from the source text: exactly bare case-sensitive matches of the first definition resolve to that string's final value, everything else keeps its own content, strings stay as a resolver-free stack leaves them, resolved keys recorded in field order.",
+        "text": "Bounded-exhaustive exploration: every document of <=4 (quick) / <=5 (thorough) blocks over an 11-block catalogue (duplicate and case-variant @string definitions, a string whose value is an identifier, an entry with every value form, an entry naming one string twice, definitions before/after/absent), default stack, compared with a reference computed from the source text: exactly bare case-sensitive matches of the first definition resolve to that string's final value, everything else keeps its own content, strings stay as a resolver-free stack leaves them, resolved keys recorded in field order.",
         "note": 'Only live entries are judged; catalogue and length bound as stated.',
         "technique": 'bounded-exhaustive model checking of the implementation against a reference resolver',
     },
     {
         "id": 'C12',
-        "text": "Bounded-exhaustive exploration of split_multiple_persons_names: every token sequence over a 16-token alphabet up to length 5 (quick) / 6 plus a 10-token core to 7 (thorough), the exact token-edit balls of radius 2 (3 for the shortest base in thorough) around 3 realistic author lists, every list of <=3/<=4 catalogue names x 5 separator spellings, and the SeparateCoAuthors/MergeCoAuthors route. Oracles: conservation (regex full match of pieces and separators), idempotence, and on brace-balanced strings equality with an independent word-based reference splitter validated on the repository's 44 BibTeX-derived cases.",
+        "text": "Bounded-exhaustive exploration of split_multiple_persons_names: every token sequence over a 19-token alphabet up to length 5 (quick) / 6 plus a core alphabet to 7 (thorough), the exact token-edit balls of radius 2 (3 for the shortest base in thorough) around 4 realistic author lists, every list of <=3/<=4 catalogue names x 5 separator spellings, and the SeparateCoAuthors/MergeCoAuthors route. Oracles: conservation (regex full match of pieces and separators), idempotence, and on brace-balanced strings equality with an independent word-based reference splitter validated on the repository's 44 BibTeX-derived cases.",
         "note": "Whitespace is the co-author code's documented set; alphabet and bounds as stated.",
         "technique": 'bounded-exhaustive model checking of the implementation (token sequences + exact edit balls) against a reference splitter',
     },
     {
         "id": 'C13',
-        "text": "Bounded-exhaustive exploration of parse_single_name_into_parts: every token sequence over an 18-token name alphabet (upper/lower/caseless words incl. a brace group holding a control word, special characters, escapes, separators, commas, unbalancing braces, bare backslash) up to length 5 (quick) / 6 (thorough), plus a 9-token word alphabet to length 7 / 8 (all case patterns of up to 4 words in all comma forms). Compared with a transcription of BibTeX's name rules (agrees with all 149 names of the repository's BibTeX-derived corpus in selftest) and a constructive oracle that knows each word's designed case; invalid names must raise InvalidNameError and, through SplitNameParts and parse_string, yield a MiddlewareErrorBlock retaining the entry.",
+        "text": "Bounded-exhaustive exploration of parse_single_name_into_parts: every token sequence over a 21-token name alphabet (upper/lower/caseless words incl. a brace group holding a control word, special characters, escapes, separators, commas, unbalancing braces, bare backslash) up to length 5 (quick) / 6 (thorough), plus a 9-token word alphabet to length 7 / 8 (all case patterns of up to 4 words in all comma forms). Compared with a transcription of BibTeX's name rules (agrees with all 149 names of the repository's BibTeX-derived corpus in selftest) and a constructive oracle that knows each word's designed case; invalid names must raise InvalidNameError and, through SplitNameParts and parse_string, yield a MiddlewareErrorBlock retaining the entry.",
         "note": 'Words with table-driven case are outside the alphabet; names with an empty von-Last section are judged for word conservation only.',
         "technique": "bounded-exhaustive model checking of the implementation against a validated transcription of BibTeX's algorithm (two-oracle rule)",
     },
     {
         "id": 'C14',
-        "text": "Bounded-exhaustive exploration of the inverse pair: every valid single name over the C13 alphabet up to length 4 (quick) / 5 (thorough) in the property's domain, and every list of 2 (quick) / 2-3 (thorough) persons over a 57-name catalogue (one per form x case pattern and per first-character class of the merged name), through the function pair and through parse_string(append=[SeparateCoAuthors, SplitNameParts]) -> write_string(prepend=[MergeNameParts, MergeCoAuthors]) -> parse for author (braced), editor (quoted), translator. Oracle: same NameParts lists, no failed block, other fields unchanged.",
+        "text": "Bounded-exhaustive exploration of the inverse pair: every valid single name over the C13 alphabet up to length 4 (quick) / 5 (thorough) in the property's domain, and every list of 2 (quick) / 2-3 (thorough) persons over a 60-name catalogue (one per form x case pattern and per first-character class of the merged name), through the function pair and through parse_string(append=[SeparateCoAuthors, SplitNameParts]) -> write_string(prepend=[MergeNameParts, MergeCoAuthors]) -> parse for author (braced), editor (quoted), translator. Oracle: same NameParts lists, no failed block, other fields unchanged.",
         "note": "Domain as the property states plus: no person literally named 'and', value and merged value embeddable in the dialect (R3).",
         "technique": 'bounded-exhaustive model checking of the implementation with a differential inverse law (function pair and whole stack)',
     },
     {
         "id": 'C15',
-        "text": 'Exhaustive as the property states: 12 months x every spelling (int, digit strings with 0-2 leading zeros, all case variants of abbreviation and full name: 1704 values) x 3 middlewares x all 9 ordered pairs x in-place/copy; 31 non-month values must come back identical; ~200 Unicode values (non-ASCII digits, one code point per category, 5000-digit string, NUL, surrogate) for the no-exception clause; long-lived instances compared with fresh ones over collision sequences; entries without month untouched. Oracle: the 12-month table, result types, composition law M2(M1(v)) == M2(v).',
+        "text": 'Exhaustive as the property states: 12 months x every spelling (int, digit strings with 0-2 leading zeros, all case variants of abbreviation and full name: 1704 values) x 3 middlewares x all 9 ordered pairs x in-place/copy; 54 non-month values (incl. tuples, containers, floats, Fraction, Decimal, complex, bytes, case-folding look-alikes) must come back identical; ~200 Unicode values (non-ASCII digits, one code point per category, 5000-digit string, NUL, surrogate) for the no-exception clause; long-lived instances compared with fresh ones over collision sequences; entries without month untouched. Oracle: the 12-month table, result types, composition law M2(M1(v)) == M2(v).',
         "note": 'bool is not treated as an integer month.',
         "technique": 'exhaustive model checking of the implementation over the finite month/value space against a table reference and a composition law',
     },
@@ -126,13 +126,13 @@ CHECKS = [
     },
     {
         "id": 'C18',
-        "text": 'Bounded-exhaustive exploration of Latex en/decoding: round trip decode(encode(t)) == t for every token sequence up to length 3 (quick) / 4 (thorough) over a 49-token text alphabet (letters, accented letters, punctuation, TeX specials, math and URL tokens) x keep_math x enclose_urls, through fields and @string, with fresh and long-lived instances; scope/type claims on a catalogue library (str, int, list, NameParts, None values, strings, every other block kind) under 40 constructor variants incl. custom converters, in-place and copy; containment of converter failures at first/last field, name part and @string. F18 (URLs containing $ % & \\ { } ~) is a recorded known finding of the third-party decoder.',
+        "text": 'Bounded-exhaustive exploration of Latex en/decoding: round trip decode(encode(t)) == t for every token sequence up to length 3 (quick) / 4 (thorough) over a 48-token text alphabet (incl. NBSP and tab) (letters, accented letters, punctuation, TeX specials, math and URL tokens) x keep_math x enclose_urls, through fields and @string, with fresh and long-lived instances; scope/type claims on a catalogue library (str, int, list, NameParts, None values, strings, every other block kind) under 40 constructor variants incl. custom converters, in-place and copy; containment of converter failures at first/last field, name part and @string. F18 (URLs containing $ % & \\ { } ~) is a recorded known finding of the third-party decoder.',
         "note": 'Decided for pylatexenc as installed; texts that are ambiguous in themselves are outside the alphabet (DESIGN 3.2).',
         "technique": 'bounded-exhaustive model checking of the implementation (token sequences x options) with round-trip, scope and containment oracles',
     },
     {
         "id": 'C19',
-        "text": 'Explicit-state breadth-first closure of the state graph of real Entry objects under all mutating operations (set_field, item assignment, pop with/without default, del) over keys {a, A, b} x values {1, 2} from the empty entry and 3 parsed entries (390 states), every read accessor evaluated in every state against a plain dict, plus every history of mutating and reading operations to depth 3 (quick) / 4 (thorough) without deduplication; and for every block and field of 8 parsed documents every single-attribute perturbation (!= both ways) and copy/deepcopy (== both ways), cross-class pairs.',
+        "text": 'Explicit-state breadth-first closure of the state graph of real Entry objects under all mutating operations (set_field, item assignment, pop with/without default, del) over keys {a, A, TYPE} x values {1, 2} from the empty entry and parsed entries, every read accessor evaluated in every state against a plain dict, plus every history of mutating and reading operations to depth 3 (quick) / 4 (thorough) without deduplication; and for every block and field of 8 parsed documents every single-attribute perturbation (!= both ways) and copy/deepcopy (== both ways), cross-class pairs.',
         "note": 'Canonical state is the whole __dict__ of the entry, so hidden state added by a change splits states instead of hiding them; del of an absent key is mapped to pop as documented.',
         "technique": 'explicit-state model checking (BFS over operation histories on the real object against a dict reference) + exhaustive single-attribute perturbations',
     },
@@ -169,6 +169,31 @@ EXTRA = {
 for _c in CHECKS:
     if _c["id"] in EXTRA:
         _c["text"] = _c["text"] + " " + EXTRA[_c["id"]]
+
+# families added after the third and fourth waves (DESIGN 10.10, 10.12)
+EXTRA2 = {
+    "C01": "Appending middleware of the same types as the default stack must only warn; any exception in a documented workflow is a violation.",
+    "C02": "A block removed through an equal copy and the document parsed into the library again; keys ending in a backslash.",
+    "C04": "A prefix ending in an entry that repeats a field key; a RefTeX-form suffix.",
+    "C05": "A rejected write between the two writes of every trace (same format object); documents with structurally equal blocks, a dotted capital I type, text ending in a backslash.",
+    "C06": "The same block object at several positions; rejected writes (hostile library, bad comment template) inside the history; non-ASCII keys.",
+    "C07": "Hostile libraries (odd value types, non-string keys, unknown block class) interleaved into every long-lived sequence; a copy-mode stage that raises must leave its input; copy vs in-place differential for raising stages.",
+    "C08": "add() fed by an iterable that raises half way; an Entry subclass; an entry with the empty key.",
+    "C10": "Failing calls interleaved (an instance after a failed call behaves like a fresh one, copy-mode still copies); repeated adds from one stripped library.",
+    "C11": "An @string whose content equals its key; CRLF documents; failing calls interleaved.",
+    "C12": "A name field key held twice by a programmatically built entry.",
+    "C13": "The error block for an invalid name must be copyable and writable; a valid name before the invalid one; brace groups opening with backslash-blank.",
+    "C14": "Name fields sharing one list object; failing calls interleaved.",
+    "C15": "Chains of three middlewares.",
+    "C16": "The same comment object above several blocks; twins and non-ASCII keys; a sort that raised before the judged one.",
+    "C17": "Failing calls (bad field first / middle / last) interleaved; Unicode keys.",
+    "C18": "Converters raising nine exception types; values nested 3000 deep; NameParts sharing lists.",
+    "C19": "The mapping hands out and keeps the very Field objects; a Field obtained earlier is not rewritten by a later assignment; odd keys.",
+    "C20": "Failure paths: a rejected write_file leaves the target untouched / uncreated, a rejected parse into a library leaves it consistent and reusable; colliding keys after an in-place key change.",
+}
+for _c in CHECKS:
+    if _c["id"] in EXTRA2:
+        _c["text"] = _c["text"] + " " + EXTRA2[_c["id"]]
 
 CHECKS.sort(key=lambda c: c["id"])
 
